@@ -391,7 +391,7 @@ func checkHoistUnderConjunctionOnly(r *Run) {
 						}
 						return false
 					}
-					for _, l := range pathConditions(fd.Body, as) {
+					for _, l := range controlConds(fd.Body, as) {
 						if impliesEmpty(l.Expr, l.Neg) {
 							emptyGuard = true
 						}
